@@ -20,6 +20,11 @@ FAMILIES = {
     ],
     'C07': [
         {'family': 'core', 'knobs': {'p_cancel': 0.15, 'p_error': 0.15}, 'quick': 400, 'thorough': 6000},
+        {'family': 'cut', 'knobs': {}, 'quick': 300, 'thorough': 5000, 'first': 100000},
+    ],
+    'C13': [
+        {'family': 'core', 'knobs': {'max_steps': 20}, 'quick': 120, 'thorough': 1500},
+        {'family': 'hostile', 'knobs': {'classes': ['duplicate_request'], 'p_raise': 0.0}, 'quick': 120, 'thorough': 1500, 'first': 100000},
     ],
     'C08': [
         {'family': 'core', 'knobs': {}, 'quick': 300, 'thorough': 5000},
@@ -35,6 +40,20 @@ FAMILIES = {
     'C12': [
         {'family': 'hostile', 'knobs': {}, 'quick': 500, 'thorough': 8000},
         {'family': 'hostile', 'knobs': {'p_raise': 0.8}, 'quick': 200, 'thorough': 3000, 'first': 100000},
+    ],
+    'C14': [
+        {'family': 'lease', 'knobs': {}, 'quick': 400, 'thorough': 6000},
+    ],
+    'C15': [
+        {'family': 'keepalive', 'knobs': {}, 'quick': 400, 'thorough': 6000},
+        {'family': 'keepalive2', 'knobs': {}, 'quick': 150, 'thorough': 2000, 'first': 100000},
+    ],
+    'C16': [
+        {'family': 'setup_client', 'knobs': {}, 'quick': 400, 'thorough': 6000},
+        {'family': 'setup_server', 'knobs': {}, 'quick': 200, 'thorough': 2000, 'first': 100000},
+    ],
+    'C17': [
+        {'family': 'reconnect', 'knobs': {}, 'quick': 400, 'thorough': 6000},
     ],
     'C10': [
         {'family': 'core', 'knobs': {'p_cancel': 0.15, 'p_error': 0.15}, 'quick': 400, 'thorough': 6000},
